@@ -96,6 +96,8 @@ def run(ctx):
     for part in pmap(lambda ch: worker.run_isolating(ctx, "aa", ch, lambda r, e: None, timeout=900), [reqs[i:i + 200] for i in range(0, len(reqs), 200)]):
         reps += part
     for bl, rep in zip(blocks, reps):
+        if worker.timed_out(ctx, rep):
+            continue
         if "ok" not in rep:
             continue
         dump = [x for x in rep["ok"]["rules"] if x["kind"] != "nil"]
@@ -120,6 +122,8 @@ def run(ctx):
     for part in pmap(lambda ch: worker.run_isolating(ctx, "logs", ch, lambda r, e: None, timeout=900), [reqs[i:i + 20] for i in range(0, len(reqs), 20)]):
         reps += part
     for ch, rep in zip(batches, reps):
+        if worker.timed_out(ctx, rep):
+            continue
         if "ok" not in rep:
             continue
         for pn, dump in (rep["ok"].get("rules") or {}).items():
@@ -147,6 +151,8 @@ def run(ctx):
         dreps = worker.run_isolating(ctx, "prebuild", dreqs, lambda r, e: None, extra_env={"DISTRIBUTION": "arch"}, timeout=900)
         texts = []
         for (kind, line), rep in zip(items, dreps):
+            if worker.timed_out(ctx, rep):
+                continue
             if "ok" not in rep:
                 continue
             region = generated_region(host_for(line), rep["ok"]["outs"][0], line)
@@ -156,6 +162,8 @@ def run(ctx):
         preqs = [{"id": i, "do": "rules", "text": t + "\n\n"} for i, (k, l, t) in enumerate(texts)]
         preps = worker.run_isolating(ctx, "aa", preqs, lambda r, e: None, timeout=900)
         for (kind, line, t), rep in zip(texts, preps):
+            if worker.timed_out(ctx, rep):
+                continue
             if "ok" not in rep:
                 continue
             dump = [x for x in rep["ok"]["parsed"] if x["kind"] in AA3]
